@@ -42,3 +42,9 @@ claim("C11",
   "Decides structural necessary conditions of C11 for every pod set and fault pattern: Evict only for pods not yet handled, not already evicted, while the target is unmet; after every success or already-evicted pod the pod is marked, its release credited for all targets and the target re-tested before any further eviction; a met target stops the loop; the eviction depends on the victim's own contribution (one known finding); candidates pass all eligibility filters, identically for memory and CPU; the comparator implements the published key order; the eviction-priority annotation cannot wrap. It does not decide amounts (minimality).",
   "trusts go/ssa and the rule tables in internal/rules/c11.go; one recorded known finding (contribution gate) is reported as KNOWN-FINDING",
   "DESIGN.md §4 C11")
+
+claim("C12",
+  "custom SSA rules: loop-direction classification of induction variables, registry table extraction from the package initialiser, dominating-guard rules for needUpdate/needMerge, cache-coherence flow rule on every success return of the merge function, operand-symmetry (mirror) rule on the merge conditions, must-follow rule for the two-phase BE cpuset rewrite",
+  "Decides structural necessary conditions of C12 for every tree and value assignment: merge pass top-down before exact pass bottom-up; the five hierarchical files use mergeable updaters with the matching condition; nothing is written unless needUpdate/needMerge says so and the merged value is what is written; the cached updater always carries the content the file now holds (so the target is reached); old and new values are treated alike by the merge conditions; the BE cpuset union is written top-down before the target bottom-up. It does not decide the validity of each intermediate content for concrete values.",
+  "trusts go/ssa loop shapes (rotated range loops are recognised) and the rule tables in internal/rules/c12.go",
+  "DESIGN.md §4 C12")
